@@ -1132,6 +1132,9 @@ def run_rewrite(case, ctx):
 
 
 # =========================================================================== tests
+# libFuzzer executions per shard and @given test of the coverage-guided extra of the thorough tier (vp/fuzz.py)
+FUZZ = 2000
+
 TESTS = [
     Test('bounds', run_bounds, strategy=lambda tier: bounds_cases(), examples={'quick': 4000, 'thorough': 200000}),
     Test('snap', run_snap, strategy=lambda tier: snap_cases(), examples={'quick': 4000, 'thorough': 200000}),
